@@ -593,26 +593,67 @@ func checkDomNumbers(n *Node, bi *BlockInfo, fail func(class, witness, detail st
 			continue
 		}
 		num := view.NumberU64(ctx)
-		for _, nn := range []uint64{num + 1, num - 1, 0, num + 1000} {
-			if nn == num {
-				continue
-			}
+		try := func(name string, seed uint64, mutate func(cp *types.WorkObject)) bool {
 			cp, err := roundTripBlock(view, locOf(ctx))
 			if err != nil {
-				return
+				return true
 			}
-			cp.SetNumber(new(big.Int).SetUint64(nn), ctx)
+			mutate(cp)
 			cp.WorkObjectHeader().SetHeaderHash(cp.Header().Hash())
-			if err := Seal(cp, uint64(bi.Number)*7919+nn, 1<<17, func(wo *types.WorkObject) bool {
+			if err := Seal(cp, uint64(bi.Number)*7919+seed, 1<<17, func(wo *types.WorkObject) bool {
 				_, o, e := n.Zone().CalcOrder(wo)
 				return e == nil && o == bi.Order
 			}); err != nil {
 				simkit.Global.Inc("dom_number_reseal_failed")
+				return true
+			}
+			simkit.Global.Inc("fault.byz.dom-" + name)
+			if err := hc.VerifyHeader(cp); err == nil {
+				fail("rewrite-accepted", fmt.Sprintf("mutation=%s[ctx%d] dom-header-verification", name, ctx), fmt.Sprintf("a copy of the order-%d block #%d with %s changed for context %d, re-sealed to the same order, passes the header verification of that context's chain", bi.Order, bi.Number, name, ctx))
+				return false
+			}
+			return true
+		}
+		for _, nn := range []uint64{num + 1, num - 1, 0, num + 1000} {
+			if nn == num {
 				continue
 			}
-			simkit.Global.Inc("fault.byz.dom-number")
-			if err := hc.VerifyHeader(cp); err == nil {
-				fail("rewrite-accepted", fmt.Sprintf("mutation=number[ctx%d] dom-header-verification", ctx), fmt.Sprintf("a copy of the order-%d block #%d whose number in context %d is %d instead of %d (parent has %d), re-sealed to the same order, passes the header verification of that context's chain", bi.Order, bi.Number, ctx, nn, num, num-1))
+			nn := nn
+			if !try("number", nn, func(cp *types.WorkObject) { cp.SetNumber(new(big.Int).SetUint64(nn), ctx) }) {
+				return
+			}
+		}
+		// the other fields the dominant chain derives from the parent (each is compared explicitly by that context's verification)
+		rows := []struct {
+			name string
+			ctxs []int
+			f    func(cp *types.WorkObject)
+		}{
+			{"parent-entropy", []int{0, 1}, func(cp *types.WorkObject) { cp.Header().SetParentEntropy(inc(cp.ParentEntropy(ctx)), ctx) }},
+			{"parent-delta-entropy", []int{1}, func(cp *types.WorkObject) { cp.Header().SetParentDeltaEntropy(inc(cp.ParentDeltaEntropy(ctx)), ctx) }},
+			{"parent-uncled-delta-entropy", []int{1}, func(cp *types.WorkObject) {
+				cp.Header().SetParentUncledDeltaEntropy(inc(cp.ParentUncledDeltaEntropy(ctx)), ctx)
+			}},
+			{"region-state-root", []int{1}, func(cp *types.WorkObject) { cp.Header().SetRegionStateRoot(common.Hash{1}) }},
+			{"prime-state-root", []int{0}, func(cp *types.WorkObject) { cp.Header().SetPrimeStateRoot(common.Hash{1}) }},
+			{"efficiency-score", []int{0}, func(cp *types.WorkObject) { cp.Header().SetEfficiencyScore(cp.Header().EfficiencyScore() + 1) }},
+			{"threshold-count", []int{0}, func(cp *types.WorkObject) { cp.Header().SetThresholdCount(cp.Header().ThresholdCount() + 1) }},
+			{"etx-eligible-slices", []int{0}, func(cp *types.WorkObject) {
+				h := cp.Header().EtxEligibleSlices()
+				h[31] ^= 0x02
+				cp.Header().SetEtxEligibleSlices(h)
+			}},
+			{"miner-difficulty", []int{0}, func(cp *types.WorkObject) { cp.Header().SetMinerDifficulty(inc(cp.Header().MinerDifficulty())) }},
+		}
+		for ri, row := range rows {
+			applies := false
+			for _, c := range row.ctxs {
+				applies = applies || c == ctx
+			}
+			if !applies || (int(bi.Number)+ri)%3 != 0 { // a third of the rows per block
+				continue
+			}
+			if !try(row.name, uint64(1000+ri), row.f) {
 				return
 			}
 		}
